@@ -245,6 +245,7 @@ class Item:
     dmetas: List[DM] = dfield(default_factory=list)
     repr: Optional[str] = None
     where_clause: bool = False       # render bounds in a where-clause instead of inline
+    cparam_default: Optional[str] = None    # const parameters carry a default (`const N0: usize = 4`)
     repr_form: Optional[List[str]] = None   # how #[repr] is WRITTEN: one entry per attribute, e.g. ["C, u8"], ["u8", "C"], ["align(8)", "i16"]
                                             # (`repr` stays the integer type: that is what rustc uses and what the model sees)
     groups: Optional[List[int]] = None
@@ -320,7 +321,7 @@ def generics_decl(it: Item, bounds: str = "") -> Tuple[str, str, str]:
                 wh.append("%s: %s" % (name, bounds))
         uses.append(name)
     for i in range(it.cparams):
-        params.append("const N%d: usize" % i)
+        params.append("const N%d: usize%s" % (i, (" = " + it.cparam_default) if it.cparam_default else ""))
         uses.append("N%d" % i)
     if not params:
         return "", "", ""
